@@ -16,7 +16,9 @@ META["bounds"] = c01.META["bounds"] + [
     "handlers: XmlEventHandler.process_context (+merge_parent_namespaces) and LxmlEventHandler.process_context on the same event stream must build equal objects or fail with the same exception class",
     "iterwalk (pure Python) over an element-stub tree vs the iterparse-contract stream (models without QName-typed values)",
 ]
-META["outside"] = c01.META["outside"] + ["source kinds that are I/O (bytes/str/path/file object)", "everything the C libraries do (escaping, entities, CDATA, encodings)"]
+META["bounds"] = META["bounds"] + ["sources: every pool document (harness/mutate.py DOCS) as bytes, str, path, binary and text file object, lxml tree / element, ElementTree tree / element through the REAL front ends "
+                                   "of both handlers (selector driven, concrete runs): all must build the object the bytes build"]
+META["outside"] = c01.META["outside"] + ["everything the C libraries do on the WRITING side (escaping, encodings)"]
 
 SLEN = PART.get("slen", 2)
 IMAX = PART.get("imax", 100)
@@ -99,7 +101,70 @@ EXPLAIN = {}
 _WALK = ["basic_int", "basic_str", "textattr", "lists_int", "nilparent", "parenta", "unqualified", "sequential", "wrapped", "compound_single", "defaults", "nsattr"]
 
 
+# ---------------------------------------------------------------------------------------------------------------------
+# source kinds through the real front ends: bytes, str, path, binary / text file object, lxml tree / element, ElementTree tree / element
+from harness import textpath  # noqa: E402
+from harness.common import concretize, known, untraced  # noqa: E402
+
+_KNOWN_ET_PREFIX = known("C08-elementtree-source-loses-prefixes")
+_PREFIX_VALUE_DOCS = ("qnames", "anytyped", "enums")  # documents whose CONTENT uses prefixes (QName values, xsi:type of builtins)
+
+
+def _sources(doc, src, h):
+    handler = ("lxml", "native")[h]
+    source = textpath.SOURCES[src]
+    cls, text = textpath.doc_text(doc)
+    if _KNOWN_ET_PREFIX and source.startswith("et_") and doc in _PREFIX_VALUE_DOCS:
+        return {"ok": True, "skipped": "exactly the signature of the listed known finding"}
+    try:
+        base = textpath.parse(text.encode(), cls, "native")
+        other = textpath.parse(text.encode(), cls, "lxml")
+        got = textpath.parse_source(doc, source, handler)
+    except Exception as e:  # noqa: BLE001
+        return {"ok": False, "raised": repr(e)[:300], "source": source, "handler": handler}
+    if got is None:
+        return {"ok": base == other, "skipped": "handler does not take this source kind"}
+    return {"ok": base == other and ("ok", got) == base, "source": source, "handler": handler, "bytes_native": repr(base)[:300], "bytes_lxml": repr(other)[:300], "got": repr(got)[:300]}
+
+
+def sources(src: int, h: int) -> bool:
+    """
+    pre: 0 <= src < len(textpath.SOURCES)
+    pre: 0 <= h <= 1
+    post: _
+    """
+    cs, ch = concretize(src, len(textpath.SOURCES)), concretize(h, 2)
+    with untraced():
+        return result(_sources(PART.get("doc", "basic"), cs, ch)["ok"])
+
+
+def et_prefix_witness():
+    """Known finding C08-elementtree-source-loses-prefixes through the public API."""
+    import xml.etree.ElementTree as ET
+
+    from xsdata.formats.dataclass.parsers import XmlParser
+    from xsdata.formats.dataclass.parsers.handlers import XmlEventHandler
+
+    from harness.models import QNames
+
+    xml = '<ns0:qn xmlns:ns0="urn:a"><ns0:q xmlns:ns1="urn:b">ns1:x</ns0:q></ns0:qn>'
+    p = XmlParser(handler=XmlEventHandler)
+    return p.parse(ET.fromstring(xml), QNames) == p.from_string(xml, QNames)
+
+
+EXPLAIN = dict(globals().get("EXPLAIN", {}), sources=lambda src, h: _sources(PART.get("doc", "basic"), src, h))
+
+
 def plan(tier):
+    jobs = _plan_seam(tier)
+    from harness import mutate
+
+    for doc in sorted(mutate.DOCS):
+        jobs.append(Job("sources", {"doc": doc}, 120, 30, note="real front ends: 9 source kinds x 2 handlers"))
+    return jobs
+
+
+def _plan_seam(tier):
     jobs = []
     names = list(c01._QUICK_SPECS)
     if tier == "quick":
